@@ -60,7 +60,14 @@ fn reps(x: &Ext, r: &mut Rng) -> Vec<V> {
             let (n, d) = (q.numer().clone(), q.denom().magnitude().clone());
             // rationals always
             out.push(V::RQ(RBig::from_parts(ibig_of_int(&n), ubig_of_nat(&d))));
-            let k = BigUint::from(1 + r.below(6));
+            // the common factor of the non-reduced twin: small, or the modulus of the hash (2^127 - 1) and its square,
+            // or the Mersenne number next to it
+            let k = match r.below(10) {
+                0 => BigUint::from(i128::MAX as u128),
+                1 => BigUint::from(i128::MAX as u128) * BigUint::from(i128::MAX as u128),
+                2 => (BigUint::from(1u8) << 127usize) + 1u32,
+                _ => BigUint::from(1 + r.below(6)),
+            };
             out.push(V::RX(Relaxed::from_parts(ibig_of_int(&(&n * BigInt::from(k.clone()))), ubig_of_nat(&(&d * &k)))));
             if d.is_one() {
                 out.push(V::I(ibig_of_int(&n)));
